@@ -1,6 +1,6 @@
 from props import sched_common
 
-THEOREMS = []
+THEOREMS = ["Dispenso.Sched." + t for t in ['C05_capture_state', 'C05_rethrows_le_captures', 'C05_captured_nodup', 'C05_capture_once', 'C05_rethrow_after_zero', 'C05_done_delivers']]
 # (flavour, scenarios in the quick tier): 0 mixed, 1 without resize, 2 resize-heavy
 FLAVOURS = [(1, 250), (0, 150)]
 
